@@ -126,6 +126,69 @@ def case_point_wrapper(ctx, scenario):
         ctx.check(ctx.eq(u, root), "D-DIR.root", info="the root of the balance function is returned")
 
 
+def case_direction_iteration(ctx, regime):
+    """direction_iteration=True: after each U10 solve the wind direction moves towards the direction of the total
+    stress along the SHORTER arc - by the whole difference when it is below 10 degrees, by half of it otherwise - and
+    stays in [0,360); the iteration stops when the difference is below 1 degree. The Newton solver and the stress
+    routine are nondeterministic stubs (arbitrary speeds / stress directions)."""
+    mods = P.install(ctx)
+    WI = mods["wind_inversion"]
+    g, f, deg = P.grid(ctx, 2, 3)
+    E = P.nonneg(ctx, "E", (2, 3))
+    bulk = ctx.real("bulk")
+    ctx.assume(ctx.lt(0, bulk))
+    d0 = ctx.real("d0")
+    ctx.assume(ctx.And(ctx.le(0, d0), ctx.lt(d0, 360)))
+    nd = [ctx.real(f"nd{i}") for i in range(3)]
+    for x in nd:
+        ctx.assume(ctx.And(ctx.le(0, x), ctx.lt(x, 360)))
+    roots = [ctx.real(f"u{i}") for i in range(3)]
+    for x in roots:
+        ctx.assume(ctx.lt(0, x))
+    used = []
+
+    def newton(function, guess, args, *rest, **kw):
+        used.append(args[2][1])            # wind direction of this solve
+        return roots[len(used) - 1]
+
+    nstress = []
+
+    def stress(roughness, variance_density, wind, *a, **k):
+        nstress.append(wind)
+        return bulk, nd[len(nstress) - 1]
+    ctx.patch(WI, "numba_newton_raphson", newton)
+    ctx.patch(WI, "_total_stress_point", stress)
+    wrap = lambda x: ctx.mod(x + 180, 360) - 180
+    dl0 = wrap(nd[0] - d0)
+    # fix the regime of the first update before the code runs (keeps the wrap counts determined)
+    small = ctx.lt(abs(dl0), 1)
+    mid = ctx.And(ctx.Not(small), ctx.lt(abs(dl0), 10))
+    if regime == "stop":
+        ctx.assume(small)
+    elif regime == "full":
+        ctx.assume(mid)
+    else:
+        ctx.assume(ctx.Not(ctx.lt(abs(dl0), 10)))
+    if regime != "stop":
+        exp1 = nd[0] if regime == "full" else ctx.mod(d0 + dl0 / 2, 360)
+        ctx.assume(ctx.lt(abs(wrap(nd[1] - exp1)), 1))      # second stress direction within 1 degree: stop there
+    u, d = WI._u10_from_bulk_rate_point(bulk, E, roots[0], d0, np.inf, g, _params("wind"), None, None,
+                                        ctx.const(np.zeros((2, 3))), True)
+    ctx.reach("D-ITER")
+    if regime == "stop":
+        ctx.check(len(used) == 1, "D-ITER.stop", info="difference below 1 degree: one solve")
+        ctx.check(ctx.eq(d, nd[0]), "D-ITER.final", info="the stress direction is adopted")
+        ctx.check(ctx.eq(u, roots[0]), "D-ITER.speed")
+        return
+    ctx.check(len(used) == 2, "D-ITER.stop", info=dict(solves=len(used), what="stops once the difference is below 1 degree"))
+    if len(used) >= 2:
+        ctx.check(ctx.is_multiple(used[1] - exp1, 360), "D-ITER.shortarc",
+                  info="second solve uses direction + c*delta (mod 360), delta wrapped into [-180,180)", div_uf=True)
+        ctx.check(ctx.And(ctx.le(0, used[1]), ctx.lt(used[1], 360)), "D-ITER.range", info="direction stays in [0,360)")
+    ctx.check(ctx.eq(d, nd[1]), "D-ITER.final")
+    ctx.check(ctx.eq(u, roots[1]), "D-ITER.speed", info="speed of the last solve")
+
+
 def case_batch_and_guess(ctx):
     """_u10_from_spectra gives each point its own spectrum / guess / depth / rate of change; estimate_u10_from_source_
     terms uses the peak equilibrium-range U10 as first guess"""
@@ -216,6 +279,8 @@ def cases(tier):
     add("case_point_wrapper", "point_wrapper_ok", scenario="ok")
     add("case_point_wrapper", "point_wrapper_raises", scenario="raises")
     add("case_batch_and_guess", "batch_and_guess", opts=dict(weight=30))
+    for rg in ("stop", "full", "half"):
+        add("case_direction_iteration", f"direction_iteration_{rg}", regime=rg)
     add("case_jit_witness", "jit_witness_st4", diss="st4", opts=dict(concrete_jit=True, label="D-JIT", weight=1000,
                                                                      case_timeout_s=1500))
     if not q:
